@@ -21,7 +21,7 @@ offset = 0
 if "--offset" in args:                   # numbering offset for later waves: patch.diff -> <ID>-<offset+1>
     i = args.index("--offset"); offset = int(args[i + 1]); del args[i:i + 2]
 args = [a for a in args if a not in ("--no-suite", "--own-only", "--skip-done")]
-SPECIAL = {"C01-2": ["C04", "C11"], "C08-2": ["C34"], "C25-2": ["C28"], "C12-2": ["C06"], "C12-3": ["C06"], "C12-4": ["C09"], "C35-4": ["C40"]}
+SPECIAL = {"C01-2": ["C04", "C11"], "C08-2": ["C34"], "C25-2": ["C28"], "C12-2": ["C06"], "C12-3": ["C06"], "C12-4": ["C09"], "C35-4": ["C40"], "C25-4": ["C28"]}
 HEAD = subprocess.check_output(["git", "-C", "/repo", "rev-parse", "--short", "HEAD"], text=True).strip()
 src = args[0]
 ids = args[1:] or sorted(os.listdir(src))
